@@ -2241,6 +2241,35 @@ def grd11_reopen_offset(P, R, L, rule="GRD-11"):
                 if not any(o.kind == "const" and o.name == "0" for o in other):
                     ok = False
                     det.append("line %s: the offset computation is guarded by a comparison of the file length with something other than 0" % c.line)
+    # a zero offset is only right for an empty file: an assignment of the constant 0 to the offset may be controlled by a
+    # comparison of the file length with 0 and by nothing else (a file that ends inside a block trailer still needs the padding
+    # the writer emits when it sees the true offset)
+    off_locals = set()
+    for bb in b.blocks:
+        for st in bb["stmts"]:
+            if st["k"] == "assign" and st["rv"]["k"] == "aggregate" and (st["rv"].get("adt") or "").endswith("logs::LogWriter") and \
+                    "current_block_offset" in st["rv"]["fields"]:
+                op = st["rv"]["ops"][st["rv"]["fields"].index("current_block_offset")]
+                todo = [op]
+                while todo:
+                    x = todo.pop()
+                    if x.get("k") in ("copy", "move") and not x["pl"]["p"] and x["pl"]["l"] not in off_locals:
+                        off_locals.add(x["pl"]["l"])
+                        for d in b.defs().get(x["pl"]["l"], []):
+                            if d[0] == "stmt" and d[3]["rv"]["k"] == "use":
+                                todo.append(d[3]["rv"]["ops"][0])
+    for l in off_locals:
+        for d in b.defs().get(l, []):
+            if d[0] == "stmt" and d[3]["rv"]["k"] == "use" and d[3]["rv"]["ops"][0]["k"] == "const" and str(d[3]["rv"]["ops"][0].get("val")) == "0":
+                for c in comparisons(b):
+                    if not b.must_pass(d[1], through_edges=[(c.bb, t) for t in c.true_t]) and not b.must_pass(d[1], through_edges=[(c.bb, t) for t in c.false_t]):
+                        continue
+                    lo, ro = c.lhs_origins(), c.rhs_origins()
+                    len_vs_zero = (is_len(lo) and any(o.kind == "const" and o.name == "0" for o in ro)) or \
+                                  (is_len(ro) and any(o.kind == "const" and o.name == "0" for o in lo))
+                    if not len_vs_zero:
+                        ok = False
+                        det.append("line %s: the offset is reset to 0 under a condition (line %s) other than `file length == 0`" % (d[3].get("line"), c.line))
     R.check(rule, b.path + "|block-offset-from-file-length", ok, where(b),
             "a re-opened log continues at block offset `len % BLOCK_SIZE` for every non-empty file", "; ".join(det) or "rem sites %s" % [(l, c) for (_, l, c) in rems])
     # writer and reader agree on the block size and header length constants used in the trailer test
@@ -4414,6 +4443,7 @@ def bundle_recovery(P, R, L):
     agr2_codec_pairs(P, R, L, groups=("batch", "log", "manifest"))
     R.once(grd33_decoder_reports_consumed_bytes, P, R, L)
     R.once(grd34_batch_loop_bounded_by_count, P, R, L)
+    R.once(grd36_new_manifest_number_is_fresh, P, R, L)
     R.once(fs2_disk_operations_are_their_namesakes, P, R, L)
     R.once(agr3_minimum_length_guards, P, R, L)
     R.once(grd26_reused_flag_truthful, P, R, L)
@@ -6455,3 +6485,33 @@ def grd35_picked_compaction_has_an_input(P, R, L, rule="GRD-35"):
             "between CompactionManifest::new and the finalization an input file is pushed on every path (or the set is known to be non-empty)",
             "; ".join(sorted(set(bad))) or "manifests %d, pushes %d" % (len(news), len(pushes)))
     R.floor(rule, "CompactionManifest::new sites in pick_compaction", len(news), 2)
+
+
+# ------------------------------------------------------------------------------------------- GRD-36 a new manifest gets a new file number
+def grd36_new_manifest_number_is_fresh(P, R, L, rule="GRD-36"):
+    """VersionSet: `manifest_file_number` is assigned a FRESH file number (get_new_file_number) in recover - the manifest that
+    CURRENT names stays untouched until the replacement is complete and CURRENT is switched - and the number of an existing
+    manifest only in maybe_reuse_manifest (behind the opened append writer, GRD-24).  Writing the replacement under the live
+    manifest's own number truncates the only valid copy: a crash during that write loses the database."""
+    ADT = "versioning::version_set::VersionSet"
+    sites = mut_field_sites(P, ADT, "manifest_file_number")
+    fns = sorted({s[0] for s in sites})
+    allowed = {ADT + "::recover": "fresh", ADT + "::maybe_reuse_manifest": "reuse", ADT + "::new": "init"}
+    n = 0
+    for fn in fns:
+        b = P.body(fn)
+        kind = allowed.get(fn)
+        ok = kind is not None
+        det = "assigned in %s" % fn
+        if b is not None and kind == "fresh":
+            R.analysed(b)
+            st = field_stores(b, "manifest_file_number", adt=ADT)
+            n += len(st)
+            fresh = all(any(o.kind == "call" and o.name == ADT + "::get_new_file_number" for o in origins(b, s[2]["rv"]["ops"][0])) and
+                        not any(o.kind != "call" or o.name != ADT + "::get_new_file_number" for o in origins(b, s[2]["rv"]["ops"][0]))
+                        for s in st if s[2]["rv"]["k"] == "use")
+            ok = bool(st) and fresh and all(s[2]["rv"]["k"] == "use" for s in st)
+            det = "stores %d, all from get_new_file_number: %s" % (len(st), fresh)
+        R.check(rule, "%s|manifest-number" % fn, ok, where(b) if b is not None else "-",
+                "manifest_file_number is a fresh number in recover, an adopted one only in maybe_reuse_manifest", det)
+    R.floor(rule, "assignments of manifest_file_number in recover", n, 1)
